@@ -7,11 +7,13 @@
 EXTENDS Naturals, Integers, FiniteSets, Sequences
 S0 == 0
 R(s, r) == [s |-> s, r |-> r]
+\* result 99: the wrapped type's copy or assignment threw (C20) - the operation then has no effect
+Threw(s) == R(s, 99)
 Eff(s, o) ==
-  CASE o.n = "load" -> {R(s, s)}
-    [] o.n \in {"store", "assign"} -> {R(o.b, 0)}
-    [] o.n = "exchange" -> {R(o.b, s)}
-    [] o.n = "cas" -> IF s = o.a THEN {R(o.b, 10 + o.a)} ELSE {R(s, s)}
+  CASE o.n = "load" -> {R(s, s), Threw(s)}
+    [] o.n \in {"store", "assign"} -> {R(o.b, 0), Threw(s)}
+    [] o.n = "exchange" -> {R(o.b, s), Threw(s)}
+    [] o.n = "cas" -> (IF s = o.a THEN {R(o.b, 10 + o.a)} ELSE {R(s, s)}) \cup {Threw(s)}
     [] o.n = "none" -> {R(s, -3)}
     [] OTHER -> {R(s, 0)}
 =============================================================================
